@@ -32,7 +32,7 @@ def exc_class(e: BaseException) -> str:
 
 
 class Side:
-    __slots__ = ("backend", "heap", "colmap", "alive", "why", "marker", "datadef", "frames")
+    __slots__ = ("backend", "heap", "colmap", "alive", "why", "marker", "datadef", "frames", "tainted")
 
     def __init__(self, backend):
         self.backend = backend
@@ -43,6 +43,7 @@ class Side:
         self.marker = False     # SQL: a subquery marker was materialised (order knowledge is lost across it)
         self.datadef = True     # data still determined on this side (see section 4)
         self.frames = []        # exported frames per heap index (None if not exported)
+        self.tainted = False    # a data failure was already recorded on this side of this behaviour prefix
 
     def copy(self):
         s = Side(self.backend)
@@ -50,6 +51,7 @@ class Side:
         s.colmap = dict(self.colmap)
         s.alive, s.why, s.marker, s.datadef = self.alive, self.why, self.marker, self.datadef
         s.frames = list(self.frames)
+        s.tainted = self.tainted
         return s
 
 
@@ -112,6 +114,11 @@ class Replayer:
                    srcidx=beh["src"], moves=[s["m"] for s in beh["steps"][: k + 1]], heap_obs=heap_obs,
                    beh=dict(src=beh["src"], srcnames=beh["srcnames"], init=beh["init"], steps=beh["steps"][: k + 1]))
         rec.update(extra)
+        sides = [node.sides[b] for b in node.sides] if backend == "both" else [node.sides[backend]]
+        rec["tainted"] = any(sd.tainted for sd in sides)
+        if clause in ("rows", "order", "names", "export-error", "accept", "cross-rows", "cross-order", "cross-names"):
+            for sd in sides:
+                sd.tainted = True
         node.fails.append(rec)
 
     def project_and_compare(self, node, beh, k, side, tbl, obs, step):
